@@ -164,7 +164,8 @@ def coq_eval(scratch, require, terms, shard=150, tag="cases"):
         outs = list(ex.map(_coq_eval_file, files))
     for (rc, out), p in zip(outs, files):
         if rc != 0:
-            raise RuntimeError("coqc failed on %s:\n%s" % (p, out[-3000:]))
+            errs = [ln for ln in out.splitlines() if "Error" in ln or "rror:" in ln][:20]
+            raise RuntimeError("coqc failed on %s:\n%s\n...\n%s" % (p, "\n".join(errs), out[-1500:]))
         results.extend(jvparse.parse_output(out))
     if len(results) != len(terms):
         raise RuntimeError("coq_eval: %d results for %d terms" % (len(results), len(terms)))
@@ -302,7 +303,13 @@ def evaluate(P, scratch, impl_dir, cases, tag, sanitize=False):
     return coq, impl
 
 
+def _on_term(signum, frame):
+    raise KeyboardInterrupt("signal %d" % signum)
+
+
 def run_check(pid, tier, replay=None):
+    import signal
+    signal.signal(signal.SIGTERM, _on_term)   # so that the scratch directory is removed
     t0 = time.time()
     P = importlib.import_module("props." + pid)
     seed = int(os.environ.get("VERIF_SEED", "0") or 0)
@@ -451,6 +458,13 @@ def run_check(pid, tier, replay=None):
             log("%s %s: ok (%d cases, %d distinct non-trivial, %d theorems, %.1fs)" % (pid, tier, len(cases), len(distinct), nthm, time.time() - t0))
         return rc
     finally:
+        try:
+            if hasattr(P, "gen_tables") and os.path.realpath(REPO) != "/repo" and os.path.isdir("/repo/psutil"):
+                # a run against a modified copy (VERIF_REPO) rewrote coq/Gen: restore the tables of /repo itself
+                globals()["REPO"] = "/repo"
+                P.gen_tables(build_impl(scratch), os.path.join(COQ, "Gen"))
+        except Exception as e:  # noqa
+            log("warning: could not restore coq/Gen from /repo: %s" % e)
         shutil.rmtree(scratch, ignore_errors=True)
 
 
